@@ -164,11 +164,18 @@ CHECKS["C26"] = _sem("Every query of a generated program becomes a deterministic
                      "subquery/3 with the program's evidence as evidence list; the bound probability of every answer is "
                      "judged against the exact (conditional) probability computed by TLC.", "DESIGN.md §5 C26")
 
-CHECKS["C29"] = _sem("Histories on a prepared ClauseDB: extend() (also nested), additions of facts / rules / ADs for new and "
-                     "existing predicates, interleaved queries on the extension and on its ancestors; every query result is "
-                     "judged by TLC (Semantics.tla) on the program that database denotes at that moment, which implies "
-                     "equality with preparing the union from scratch and that ancestors are unchanged.",
-                     "DESIGN.md §5 C29", technique="API-call histories on the real ClauseDB judged by the TLA+ Semantics oracle (TLC)")
+CHECKS["C29"] = _sem("Layer B: ClauseDB.tla models the node table, offsets, head tables, redirects and the copy-on-extend of "
+                     "clausedb.py over propositional predicates; TLC checks that every database shows exactly the clauses of "
+                     "itself and its ancestors (through find / get_node, as the engine navigates) and that calls compiled in an "
+                     "ancestor reach the extension's definition - and finds the nested-extension counterexample in the pre-fix "
+                     "get_node. Every explored history and deeper random ones are executed on real ClauseDB objects and each "
+                     "database's view is judged after every operation (JudgeClauseDB.tla). Semantic histories: extend() (also "
+                     "nested), additions of facts / rules / ADs (also as first statements of nested extensions), interleaved "
+                     "queries on the extension and on its ancestors, every result judged by TLC (Semantics.tla) on the program "
+                     "that database denotes, which implies equality with preparing the union from scratch.",
+                     "DESIGN.md §5 C29", category="model_checking",
+                     technique="TLC model checking of an implementation-shaped TLA+ model of ClauseDB, spec->code replay of all explored "
+                               "histories, Layer-A judges (structure and distribution semantics) on recorded histories")
 
 CHECKS["C13"] = dict(
     category="exploration",
